@@ -2180,7 +2180,11 @@ LEVEL_TEXT = ("Proved in Lean for every program of the WellLocked shape, any num
               "same dict. derived_shares: for EVERY connection class of the source (constructors_share, read from "
               "the constructors' bytecode) a derived connection refers to its parent's implementation object. "
               "Obligations re-decided from the source on every run: program_ok, format_ok, header_test_ok, "
-              "hdr_init_ok, constructors_share, program_fuel. format_injective. model = code: sequential scenarios "
+              "hdr_init_ok, constructors_share, no_other_writer (nothing a request reaches except "
+              "_generate_request_id assigns counter / lock / connection part: a request that fails in the opener "
+              "keeps its number), program_fuel. request_supplied_id: an id present after the adapters ran (the "
+              "caller's header or one put there by an adapter of the caller's) is sent and takes no number. "
+              "format_injective. model = code: sequential scenarios "
               "(incl. reuse of caller dicts, all constructor pairs) and forced interleavings of real threads inside "
               "the real function (opcode-level scheduler, also on never-used connections) compared id by id and "
               "caller dict by caller dict with the compiled model.")
@@ -2191,8 +2195,8 @@ LEVEL_NOTE = ("Partial by nature: CPython's 'threads switch only between bytecod
               "the sampled scenarios and schedules (all pairs of stop positions for two threads on a fresh "
               "connection are exhaustive). Hand-modelled around generated constants: the order of the steps of "
               "do_request, that the dict of the request arguments is the one handed to urllib, the Authorization / "
-              "Content-Type names; adapters other than the authenticating ones and the path prefix are not "
-              "modelled; concurrent requests are modelled without body and with copy semantics only; header names "
+              "Content-Type names; adapters: the authenticating ones, the path prefix and two id-propagating adapters "
+              "of the harness are modelled, others are not; concurrent requests are modelled without body and with copy semantics only; header names "
               "are ASCII; that the lock object exists before the first call is established by the translator "
               "(it refuses a lock that is not a plain attribute read) and by first-call schedules in the tie.")
 TECHNIQUE = ("Lean 4 invariant proof over all schedules of a bytecode-extracted instruction list + heap model of "
